@@ -384,6 +384,9 @@ where
         let mut guard = file.lock_write().await.map_err(|e| e.error)?;
         guard.write_all(&buffer).await?;
         guard.flush().await?;
+        // The new vault may be shorter than the file it replaces,
+        // rows left behind the end would be read as part of the vault
+        guard.inner_mut().set_len(buffer.len() as u64).await?;
 
         Ok(())
     }
